@@ -2,6 +2,7 @@ package kvql
 
 import (
 	"fmt"
+	"strconv"
 	"strings"
 )
 
@@ -262,7 +263,7 @@ func (a *AggregatePlan) batchGetAggrKeys(chunk []KVPair, ctx *ExecuteCtx) ([]str
 			if err != nil {
 				return nil, err
 			}
-			aggKey = append(aggKey, bval...)
+			aggKey = appendAggrKeyPart(aggKey, bval)
 		}
 		ret[i] = string(aggKey)
 	}
@@ -509,9 +510,17 @@ func (a *AggregatePlan) getAggrKey(key []byte, val []byte, ctx *ExecuteCtx) (str
 		if err != nil {
 			return "", err
 		}
-		gkey += string(bval)
+		gkey = string(appendAggrKeyPart([]byte(gkey), bval))
 	}
 	return gkey, nil
+}
+
+// appendAggrKeyPart appends one group by value to the aggregation key with
+// its length in front, so different value tuples never share a key
+func appendAggrKeyPart(key []byte, part []byte) []byte {
+	key = strconv.AppendInt(key, int64(len(part)), 10)
+	key = append(key, ':')
+	return append(key, part...)
 }
 
 func (a *AggregatePlan) execExpr(kvp KVPair, expr Expression, ctx *ExecuteCtx) ([]byte, error) {
